@@ -171,11 +171,12 @@ def check(ctx):
     for f in fs:
         ctx.ob("C20.R1", f.fi, f"key discipline {f.rule}: the loop-carried key is replaced "
                                f"when consumed", False, detail=f.what, node=f.node,
-               stmt=f"{f.rule} {f.key}")
+               stmt=f"{f.rule} " + str(f.key).replace(f.fi.params()[0] + "[", "<carry>[")
+               if f.fi.params() else f"{f.rule} {f.key}")
     # the batches are drawn from the sub key
     rb = evaluate(repo, body)
     gen = [t for t, _, _ in rb.calls if is_call(t, "liesel.goose.optim._generate_batch_indices")]
-    split = ("call", ("g", "jax.random.split"), (("s", n("val"), c("key")),), ())
+    split = ("call", ("g", "jax.random.split"), (("s", n(body.params()[0]), c("key")),), ())
     ok = len(gen) == 1 and kw(gen[0], "key", 0) in (("proj", split, 1), ("proj", split, 0))
     ctx.ob("C20.R1", body, "batch indices are generated from a piece of the split of the "
                            "carried key", ok, detail=short(gen[0]) if gen else "no call")
